@@ -214,8 +214,34 @@ def run_abs(case):
 HIST_KINDS = ["sphere", "layered", "cluster_mie", "cluster_ms", "spheroid", "cylinder", "mielens", "lens"]
 
 
+def _siblings(spec, which):
+    """the same configuration with only the theory options (or one optical quantity) changed: results that a
+    cache keyed too coarsely would confuse."""
+    sc = spec["sc"]
+    th = dict(sc["th"])
+    t = th["t"]
+    if which == "optics":
+        return dict(spec, o=dict(spec["o"], pol=[spec["o"]["pol"][1] + 0.3, spec["o"]["pol"][0] + 0.1]))
+    if t == "mie":
+        th["radial"] = not th.get("radial", True) if which == "a" else th.get("radial", True)
+        th["full"] = not th.get("full", True) if which != "a" else th.get("full", True)
+    elif t == "ms":
+        if which == "a":
+            th["tight"] = not th.get("tight", False)
+        elif which == "b":
+            th["meth"] = 1 - th.get("meth", 1)
+        else:
+            th["radial"] = not th.get("radial", False)
+    elif t in ("mielens", "amielens", "lens"):
+        th["lens_angle"] = round(min(1.2, th["lens_angle"] * 0.8 + 0.05), 4)
+    else:
+        return dict(spec, o=dict(spec["o"], wl=round(spec["o"]["wl"] * 1.07, 4)))
+    return dict(spec, sc=dict(sc, th=th))
+
+
 def strat_history(tier):
-    pool = st.lists(gen.case_strategy(HIST_KINDS, max_side=5), min_size=3, max_size=6)
+    base = st.lists(st.tuples(gen.case_strategy(HIST_KINDS, max_side=5), st.sampled_from([None, "a", "b", "c", "optics"])), min_size=2, max_size=5)
+    pool = base.map(lambda l: [x for spec, w in l for x in ([spec] if w is None else [spec, _siblings(spec, w)])])
     return pool.flatmap(lambda p: st.fixed_dictionaries({
         "pool": st.just(p),
         "seq": st.lists(st.tuples(st.integers(0, len(p) - 1), st.sampled_from(["holo", "field", "intensity"])).map(list),
@@ -223,12 +249,17 @@ def strat_history(tier):
     }))
 
 
-def _compute_bytes(spec, what):
+def _compute_bytes(spec, what, theories=None):
+    import json
     from holopy.scattering import calc_holo, calc_field, calc_intensity
     o, det, sc = spec["o"], spec["det"], spec["sc"]
     unit = o["wl"] / o["nm"]
     d = gen.build_detector(det, unit)
     s, th, info = gen.build_scene(sc, o, det)
+    if theories is not None:
+        # one theory object per distinct theory specification is shared by all calculations of the history
+        # (as a user would do), so that state kept on theory objects is exercised as well
+        th = theories.setdefault(json.dumps(sc["th"], sort_keys=True), th)
     f = {"holo": calc_holo, "field": calc_field, "intensity": calc_intensity}[what]
     try:
         r = f(d, s, theory=th, **gen.optics_kwargs(o))
@@ -266,8 +297,9 @@ def run_history(case):
     first = {}
     kinds = set()
     repeats = 0
+    theories = {}
     for step, (i, what) in enumerate(seq):
-        b = _compute_bytes(pool[i], what)
+        b = _compute_bytes(pool[i], what, theories)
         kinds.add(gen.scene_label(pool[i]["sc"]))
         if b[:4] == b"EXC:":
             if pristine[(i, what)] != b:
@@ -300,8 +332,8 @@ SUBCHECKS = [
         "independent textbook near field summed over members; tolerance as C02 (roundoff + 3x truncation uncertainty) "
         "propagated through |aE+u|^2",
         tolerances={"field": "1e-6*|E|max + 1e-7*series magnitude (+3x truncation uncertainty)"}),
-    Sub("history_independence", strat_history, run_history, 96, 1600,
-        "pool of 3-6 generated calculations over all theories; a generated sequence of 4-14 (thorough 30) calls "
+    Sub("history_independence", strat_history, run_history, 320, 4800,
+        "pool of 2-10 generated calculations over all theories, where a calculation may be accompanied by a sibling that differs only in the theory options (Multisphere tolerances/solver/radial, Mie radial/asymptotic, lens angle) or in the polarization; a generated sequence of 4-14 (thorough 30) calls "
         "(holo/field/intensity, with repeats) in one process; every result must equal, bit for bit, its first "
         "evaluation and the value computed by a child forked before the history; non-trivial = >=2 Fortran-backed "
         "theories interleaved and at least one repeat",
